@@ -107,7 +107,7 @@ pub fn plan_to_json(p: &crate::imgwr::LayoutPlan) -> Value {
     json!({"seed": p.seed.to_string(), "version": p.version, "shuffle_sectors": p.shuffle_sectors,
         "free_sectors": p.free_sectors, "slot_gaps": p.slot_gaps, "fragment_mini": p.fragment_mini,
         "v3_size_high_garbage": p.v3_size_high_garbage, "min_fat_sectors": p.min_fat_sectors,
-        "library_like_trees": p.library_like_trees, "extra_fat_sectors": p.extra_fat_sectors, "total_fat_sectors": p.total_fat_sectors, "spare_difat_sectors": p.spare_difat_sectors})
+        "library_like_trees": p.library_like_trees, "extra_fat_sectors": p.extra_fat_sectors, "total_fat_sectors": p.total_fat_sectors, "spare_difat_sectors": p.spare_difat_sectors, "name_slack_garbage": p.name_slack_garbage})
 }
 
 pub fn plan_from_json(v: &Value) -> Result<crate::imgwr::LayoutPlan, String> {
@@ -124,6 +124,7 @@ pub fn plan_from_json(v: &Value) -> Result<crate::imgwr::LayoutPlan, String> {
         extra_fat_sectors: v["extra_fat_sectors"].as_u64().unwrap_or(0) as u32,
         total_fat_sectors: v["total_fat_sectors"].as_u64().unwrap_or(0) as u32,
         spare_difat_sectors: v["spare_difat_sectors"].as_u64().unwrap_or(0) as u32,
+        name_slack_garbage: v["name_slack_garbage"].as_bool().unwrap_or(false),
     })
 }
 
